@@ -39,5 +39,11 @@ let dec_of_n (x : n) : string =
 let split_ws (s : string) : string list =
   List.filter (fun x -> x <> "") (String.split_on_char ' ' s)
 let b01 b = if b then "1" else "0"
+(* every input line yields exactly one output line; a malformed line yields "ERR ..." *)
 let iter_lines (f : string -> unit) =
-  try while true do f (input_line stdin) done with End_of_file -> ()
+  try while true do
+    let l = input_line stdin in
+    (try f l with
+     | End_of_file -> raise End_of_file
+     | e -> print_string ("ERR " ^ Printexc.to_string e); print_char '\n')
+  done with End_of_file -> ()
